@@ -5,7 +5,7 @@
 EXTENDS Notes, IOUtils
 Tr == ndJsonDeserialize(IOEnv.TRACE)
 VARIABLE l
-TInit == l = 1 /\ doc = [ev |-> <<>>, heads |-> <<>>, toc |-> FALSE, tocr |-> FALSE, table |-> FALSE, nest |-> "plain", nested |-> FALSE, base |-> 0]
+TInit == l = 1 /\ doc = [ev |-> <<>>, heads |-> <<>>, toc |-> FALSE, tocr |-> FALSE, table |-> FALSE, nest |-> "plain", nested |-> FALSE, base |-> 0, capsp |-> FALSE]
 \* observed: calls = <<kind, shown, hasid>>, entries[kind] = <<shown id, backref or "">>
 Renaming(exp, obs) ==       \* obs is exp with numbers renamed injectively (identity when anchors are not random)
   /\ Len(exp) = Len(obs)
@@ -33,6 +33,6 @@ TNext == /\ l <= Len(Tr) /\ l' = l + 1 /\ UNCHANGED doc
                                  /\ r.xrefs = Xrefs(r.doc))                                                   \* and so does every automatic cross-reference
                  /\ (r.unique => /\ Len(r.hids) = Len(r.doc.heads)
                                  /\ (r.doc.toc => r.toc = TocOf(r.doc, r.hids))                                             \* renamed consistently
-                                 /\ \A i \in 1 .. Len(r.xrefs) : r.xrefs[i] = "tbl" \/ \E j \in 1 .. Len(r.hids) : r.xrefs[i] = r.hids[j])
+                                 /\ \A i \in 1 .. Len(r.xrefs) : r.xrefs[i] = TableId(r.doc) \/ \E j \in 1 .. Len(r.hids) : r.xrefs[i] = r.hids[j])
 TraceAccepted == TLCGet("stats").diameter = Len(Tr) + 1
 =============================================================================
